@@ -5,7 +5,7 @@ import ast
 import copy
 
 from .core import AnchorError, Unsupported
-from .e1_srcmodel import dotted, walk_no_nested, parent, enclosing_stmt
+from .e1_srcmodel import dotted, walk_no_nested, parent, enclosing_stmt, utext
 
 SRS = "pyyeti/srs.py"
 FDE = "pyyeti/fdepsd.py"
@@ -482,7 +482,7 @@ def r5_serial_equals_worker(ctx):
         if not argdef:
             ctx.error("srs: task argument tuple", w)
             continue
-        tup = [ast.unparse(e).replace(" ", "") for e in argdef[-1].value.elts]
+        tup = [utext(e) for e in argdef[-1].value.elts]
         fdef = [s for s in blk[: blk.index(w)] if isinstance(s, ast.Assign) and ast.unparse(s.targets[0]) == "func"]
         names = [fdef[-1].value.body.id, fdef[-1].value.orelse.id]
         for wname in names:
@@ -533,7 +533,7 @@ def r5_serial_equals_worker(ctx):
     w, call = sites[0]
     blk = _block_of(w)
     argdef = [s for s in blk[: blk.index(w)] if isinstance(s, ast.Assign) and ast.unparse(s.targets[0]) == "args"]
-    tup = [ast.unparse(e).replace(" ", "") for e in argdef[-1].value.elts]
+    tup = [utext(e) for e in argdef[-1].value.elts]
     ctx.check(rest == tup == ["coeffunc", "Q", "dT", "verbose"], "_dofde: task arguments are the parent's (coeffunc, Q, dT, verbose)", ust,
               {"unpacked": rest, "packed": tup})
     # bindings proved from the post-pool unpacking: ASV rows -> Amax / SRSmax / Var
@@ -550,13 +550,13 @@ def r5_serial_equals_worker(ctx):
     ok = bool(shp) and ast.unparse(shp[-1].value).replace(" ", "") == "(srs.createSharedArray((LF,nbins)),(LF,nbins))"
     ctx.check(ok, "fdepsd: BinAmps_ has shape (LF, nbins) so BinAmps_.shape[1] == nbins", shp[-1] if shp else w)
     # initial content of the shared BinAmps equals the serial initial content
-    pre_txt = [ast.unparse(s).replace(" ", "") for s in blk[: blk.index(w)]]
+    pre_txt = [utext(s) for s in blk[: blk.index(w)]]
     ok = "a=_to_np_array(BinAmps)" in pre_txt and "a+=np.arange(nbins,dtype=float)/nbins" in pre_txt
     ser_blk = _block_of(lp)
-    ser_txt = [ast.unparse(s).replace(" ", "") for s in ser_blk[: ser_blk.index(lp)]]
+    ser_txt = [utext(s) for s in ser_blk[: ser_blk.index(lp)]]
     ok2 = "BinAmps=np.zeros((LF,nbins))" in ser_txt and "BinAmps+=np.arange(nbins,dtype=float)/nbins" in ser_txt
     ctx.check(ok and ok2, "fdepsd: shared and serial BinAmps start from the same zeros + arange(nbins)/nbins", w)
-    ok = any(t == "BinAmps=a" for t in [ast.unparse(s).replace(" ", "") for s in post])
+    ok = any(t == "BinAmps=a" for t in [utext(s) for s in post])
     ctx.check(ok, "fdepsd: after the pool BinAmps is the shared view the workers scaled in place", w)
     mp = {f"WN_[{j}]": wn, "SIG_": "sig", f"ASV_[1, {j}]": f"SRSmax[{jn}]", f"ASV_[2, {j}]": f"Var[{jn}]",
           f"ASV_[0, {j}]": f"Amax[{jn}]", "BinAmps_.shape[1]": "nbins", "BinAmps_": "BinAmps", "Count_": "Count"}
